@@ -96,6 +96,14 @@ fn main() {
     // an accepted starting document with a relationship reference whose target is not (yet) in the document
     let start = format!(r#"{{"id":"{did}","authentication":["{did}#x"]}}"#);
     for (scope, name) in [(MethodScope::VerificationRelationship(MethodRelationship::AssertionMethod), "assertionMethod"), (MethodScope::VerificationRelationship(MethodRelationship::Authentication), "authentication"), (MethodScope::VerificationMethod, "verificationMethod")] {
+      // a service must not take the id of a referenced method either
+      if let Ok(mut ds) = CoreDocument::from_json(&start) {
+        use identity_document::service::Service;
+        let svc = Service::from_json(&format!(r#"{{"id":"{did}#x","type":"X","serviceEndpoint":"https://example.com/"}}"#)).unwrap();
+        let r = ds.insert_service(svc);
+        let json = ds.to_json().unwrap();
+        if CoreDocument::from_json(&json).is_err() { return Err(format!("after insert_service(#x) [{}] next to a reference #x the document no longer deserialises", if r.is_ok() { "accepted" } else { "refused" })); }
+      }
       let mut d = match CoreDocument::from_json(&start) { Ok(d) => d, Err(_) => return Ok(()) };
       let r = d.insert_method(mk("x"), scope);
       let json = d.to_json().unwrap();
